@@ -107,6 +107,13 @@ def crowded_dipoles_edge():
             dipole([0.97, 0.5, 0.5])]
 
 
+def close_dipoles():
+    """Two dipoles almost in line along x (exactly aligned units are F7), 0.12 apart (the r^-6 repulsion between point masses of different dipoles is of
+    order one at that distance), a third one far away: repulsion events in leaf mode and, after the mode switch, with
+    the whole dipole as the active unit."""
+    return [dipole([0.30, 0.5, 0.5]), dipole([0.47, 0.513, 0.494]), dipole([0.8, 0.1, 0.2], axis=1)]
+
+
 def water(o_pos, a=0.3, L=10.0):
     """One SPC/Fw-like molecule (H, O, H) with the oxygen at o_pos, in the plane z = const."""
     import math
@@ -227,6 +234,8 @@ def families(tier, horizon=25):
         # "late in a very long run": every lazy-deletion counter of the heap scheduler a few trashes below 2^32
         scaled(J + "coulomb_atoms/power_bounded.ini", 4, horizon=horizon, name="coulomb/power_bounded*4@2^32",
                info={"preset_counters": 2 ** 32 - 4}),
+        scaled(J + "dipoles/dipole_motion.ini", 3, start=close_dipoles(), horizon=horizon,
+               name="dipoles/dipole_motion+close3"),
         Spec("dipoles/dipole_motion@2^32", J + "dipoles/dipole_motion.ini", horizon=horizon, tags=("shipped",),
              info={"preset_counters": 2 ** 32 - 3}),
         scaled(J + "dipoles/cell_veto.ini", 4, start=crowded_dipoles(), horizon=horizon, name="dipoles/cell_veto+crowd4"),
